@@ -1,6 +1,6 @@
 (* C07 — Simulated latency and bet delay: no look-ahead and no free speed.  Statements only. *)
 From Coq Require Import ZArith List Bool.
-From V Require Import Model.Num Model.Status Model.Sim Model.SimLoop Gen.StatusC Gen.DelayC Model.SimCases Model.Examples Model.SimGuard Proofs.SimLatencyP Proofs.SimAckRunP.
+From V Require Import Model.Num Model.Status Model.Sim Model.SimLoop Gen.StatusC Gen.DelayC Model.SimCases Model.Examples Model.SimGuard Proofs.SimLatencyP Proofs.SimAckRunP Proofs.SimStaticP.
 Open Scope Z_scope.
 
 (* the real float comparison elapsed_seconds > simulated_delay, tabulated from the source for the four
@@ -78,6 +78,13 @@ Theorem C07_run_ack_after_latency : forall tb cf n sc es s m o t,
   (if so_repl o then cf_lat_replace cf else cf_lat_place cf) < t - so_created o.
 Proof. exact run_ack_after_latency. Qed.
 Print Assumptions C07_run_ack_after_latency.
+(* on the domain of the static side conditions (see C04_run_conserves_static) the boolean hypothesis above is itself a theorem *)
+Theorem C07_run_ack_after_latency_static : forall tb cf n sc es s,
+  cfg_ok_b cf = true -> initial_b s = true -> forallb (event_b2 sc n) es = true -> keys_ok_b sc n es = true ->
+  forall m o t, In m (s_markets (fold_left (step tb cf n sc) es s)) -> In o (mk_orders m) -> so_placed o = Some t ->
+  (if so_repl o then cf_lat_replace cf else cf_lat_place cf) < t - so_created o.
+Proof. exact run_ack_after_latency_static. Qed.
+Print Assumptions C07_run_ack_after_latency_static.
 
 Definition c07_script := [(0, 0, 1, [APlace 1 1 Back (OLimit 20000 200 PLapse false None) None])].
 Theorem C07_fragment_time_refuted :
